@@ -276,6 +276,10 @@ func (fgen *funcGen) irCmpXchgInst(new ir.Instruction, old *ast.CmpXchgInst) err
 	if n, ok := old.SyncScope(); ok {
 		inst.SyncScope = stringLit(n.Scope())
 	}
+	// (optional) Alignment.
+	if n, ok := old.Align(); ok {
+		inst.Align = irAlign(n)
+	}
 	// (optional) Metadata.
 	md, err := fgen.gen.irMetadataAttachments(old.Metadata())
 	if err != nil {
@@ -315,6 +319,10 @@ func (fgen *funcGen) irAtomicRMWInst(new ir.Instruction, old *ast.AtomicRMWInst)
 	// (optional) Sync scope.
 	if n, ok := old.SyncScope(); ok {
 		inst.SyncScope = stringLit(n.Scope())
+	}
+	// (optional) Alignment.
+	if n, ok := old.Align(); ok {
+		inst.Align = irAlign(n)
 	}
 	// (optional) Metadata.
 	md, err := fgen.gen.irMetadataAttachments(old.Metadata())
